@@ -58,6 +58,11 @@ def nextPos (rs : List TSRange) (inR : Bool) : Length :=
 def adv (rs : List TSRange) (inR : Bool) : List TSRange × Bool :=
   if inR then (rs.tail, false) else (rs, true)
 
+/-- The step of the EQUAL-boundaries branch (since /repo 958e7c7): a list that is exhausted and not inside a
+range "sits at LENGTH_MAX" and is not toggled; otherwise like `adv`. -/
+def advE (rs : List TSRange) (inR : Bool) : List TSRange × Bool :=
+  if rs = [] ∧ inR = false then (rs, inR) else adv rs inR
+
 def mu (rs : List TSRange) (inR : Bool) : Nat := 2 * rs.length + (if inR then 0 else 1)
 
 theorem mu_adv (rs : List TSRange) (inR : Bool) (h : ¬ (rs = [] ∧ inR = true)) :
@@ -68,7 +73,8 @@ theorem mu_adv (rs : List TSRange) (inR : Bool) (h : ¬ (rs = [] ∧ inR = true)
 suffixes (`&old_ranges[old_index]`), `racc` the reversed `differences`.
 The second guard is the state in which the C code would read `ranges[count]` (outside the array):
 it is unreachable for lists in which no range starts at `UINT32_MAX` (`symDiffLoop_spec` covers it);
-the model stops there. -/
+the model stops there.  Since /repo 958e7c7 the equal-boundaries branch no longer toggles an exhausted list
+(`advE`), which removes the only way into that state; the guard is kept (dead). -/
 def symDiffLoop (old new : List TSRange) (cur : Length) (inOld inNew : Bool) (racc : List TSRange) :
     List TSRange :=
   if old = [] ∧ new = [] then racc
@@ -84,13 +90,32 @@ def symDiffLoop (old new : List TSRange) (cur : Length) (inOld inNew : Bool) (ra
       symDiffLoop old (adv new inNew).1 nn inOld (adv new inNew).2 racc
     else
       let racc := if inOld != inNew then addRev racc cur nn else racc
-      symDiffLoop (adv old inOld).1 (adv new inNew).1 nn (adv old inOld).2 (adv new inNew).2 racc
+      symDiffLoop (advE old inOld).1 (advE new inNew).1 nn (advE old inOld).2 (advE new inNew).2 racc
 termination_by mu old inOld + mu new inNew
 decreasing_by
   · have := mu_adv old inOld (by intro c; exact h (Or.inl c)); omega
   · have := mu_adv new inNew (by intro c; exact h (Or.inr c)); omega
-  · have := mu_adv old inOld (by intro c; exact h (Or.inl c))
-    have := mu_adv new inNew (by intro c; exact h (Or.inr c)); omega
+  · -- at least one list is not exhausted-and-idle (first guard), that one strictly decreases, the other does not grow
+    rename_i hfirst _ _
+    have ho : mu (advE old inOld).1 (advE old inOld).2 ≤ mu old inOld := by
+      unfold advE; split
+      · exact Nat.le_refl _
+      · exact Nat.le_of_lt (mu_adv old inOld (by intro c; exact h (Or.inl c)))
+    have hn : mu (advE new inNew).1 (advE new inNew).2 ≤ mu new inNew := by
+      unfold advE; split
+      · exact Nat.le_refl _
+      · exact Nat.le_of_lt (mu_adv new inNew (by intro c; exact h (Or.inr c)))
+    by_cases hoe : old = [] ∧ inOld = false
+    · have hne : ¬ (new = [] ∧ inNew = false) := by
+        intro c; exact hfirst ⟨hoe.1, c.1⟩
+      have : mu (advE new inNew).1 (advE new inNew).2 < mu new inNew := by
+        unfold advE; simp only [hne, if_false]
+        exact mu_adv new inNew (by intro c; exact h (Or.inr c))
+      omega
+    · have : mu (advE old inOld).1 (advE old inOld).2 < mu old inOld := by
+        unfold advE; simp only [hoe, if_false]
+        exact mu_adv old inOld (by intro c; exact h (Or.inl c))
+      omega
 
 /-- `ts_range_array_get_changed_ranges` (output in C order). -/
 def symDiff (old new : List TSRange) : List TSRange :=
